@@ -468,7 +468,7 @@ class Prog(Prog):
         for i, rr in enumerate(rs):
             back = {o['pos'].hs[i]: j for j, o in enumerate(s.objs)}; sets.append(tuple(sorted(back.get(h, -1) for h in rr.get('objs', []))))
         s.part.count('comparisons'); labs = value_labels([json.dumps(x).encode().hex() for x in sets])
-        if len(set(labs)) > 1: s.note('C_FindObjects', what + ':result-set', ['ABCD'[sorted(set(sets)).index(x)] for x in sets] if False else labs, {'sets': [list(x) for x in sets]})
+        if len(set(labs)) > 1: s.note('C_FindObjects', what + ':result-set', labs, {'sets': [list(x) for x in sets]})
     def u_getattr(s):
         r = s.rnd; o = s.pick()
         if not o: return
@@ -556,6 +556,10 @@ def run(ctx):
     if ctx.replay: seeds = [json.load(open(ctx.replay))['witness']['seed']]
     jobs = [dict(env=env, seeds=seeds[i:i + 3]) for i in range(0, len(seeds), 3)]
     for part in pmap(worker, jobs, ctx.nproc): ctx.merge(part)
+    d = {k[5:]: v for k, v in ctx.extra.items() if k.startswith('unit:')}
+    for k in list(ctx.extra):
+        if k.startswith('unit:'): del ctx.extra[k]
+    ctx.extra['units_per_kind'] = d
     ctx.extra['programs'] = ctx.extra.get('programs', 0); ctx.extra['disagreements_checked'] = ctx.extra.get('comparisons', 0); ctx.extra['disagreements_found'] = ctx.extra.get('disagreements_found', 0)
     ctx.extra['mechanisms_in_intersection'] = len(common)
     ctx.assumptions += ['single-DES mechanisms are excluded: the system OpenSSL 3 lacks the legacy provider, which is a property of this machine, not of the library',
